@@ -228,6 +228,50 @@ main(int argc, char* argv[])
 		 hash_type_or_decl(t1[i].get()), hash_type_or_decl(t2[j].get()), chg, structural(t1[i], t2[j]), structural(t2[j], t1[i]));
 	  }
     }
+  // the types of same-named interfaces, position by position (variable type; return and parameter types), and what they are
+  // made of (pointed-to / element / underlying type) as long as both sides have the same shape: these pairs need not have the same name
+  {
+    vector<std::pair<type_base_sptr, type_base_sptr> > todo;
+    for (corpus::variables::const_iterator i = c1->get_variables().begin(); i != c1->get_variables().end(); ++i)
+      for (corpus::variables::const_iterator j = c2->get_variables().begin(); j != c2->get_variables().end(); ++j)
+	if ((*i)->get_name() == (*j)->get_name())
+	  todo.push_back(std::make_pair((*i)->get_type(), (*j)->get_type()));
+    for (corpus::functions::const_iterator i = c1->get_functions().begin(); i != c1->get_functions().end(); ++i)
+      for (corpus::functions::const_iterator j = c2->get_functions().begin(); j != c2->get_functions().end(); ++j)
+	if ((*i)->get_name() == (*j)->get_name() && (*i)->get_type() && (*j)->get_type())
+	  {
+	    function_type_sptr ft = (*i)->get_type(), gt = (*j)->get_type();
+	    if (ft->get_return_type() && gt->get_return_type())
+	      todo.push_back(std::make_pair(ft->get_return_type(), gt->get_return_type()));
+	    for (size_t k = 0; k < ft->get_parameters().size() && k < gt->get_parameters().size(); ++k)
+	      if (ft->get_parameters()[k]->get_type() && gt->get_parameters()[k]->get_type())
+		todo.push_back(std::make_pair(ft->get_parameters()[k]->get_type(), gt->get_parameters()[k]->get_type()));
+	  }
+    size_t budget = 4 * max_types;
+    for (size_t q = 0; q < todo.size() && q < budget; ++q)
+      {
+	type_base_sptr a = todo[q].first, b = todo[q].second;
+	if (!a || !b)
+	  continue;
+	bool chg = comparison::compute_diff(a, b, ctxt)->has_changes();
+	emit("xtype", label(a, q), label(b, q), false, a == b, b == a, hash_type_or_decl(a.get()), hash_type_or_decl(b.get()), chg,
+	     structural(a, b), structural(b, a));
+	if (is_pointer_type(a) && is_pointer_type(b))
+	  todo.push_back(std::make_pair(is_pointer_type(a)->get_pointed_to_type(), is_pointer_type(b)->get_pointed_to_type()));
+	else if (is_array_type(a) && is_array_type(b))
+	  todo.push_back(std::make_pair(is_array_type(a)->get_element_type(), is_array_type(b)->get_element_type()));
+	else if (is_typedef(a) && is_typedef(b))
+	  todo.push_back(std::make_pair(is_typedef(a)->get_underlying_type(), is_typedef(b)->get_underlying_type()));
+	else if (is_qualified_type(a) && is_qualified_type(b))
+	  todo.push_back(std::make_pair(is_qualified_type(a)->get_underlying_type(), is_qualified_type(b)->get_underlying_type()));
+	else if (is_class_or_union_type(a) && is_class_or_union_type(b))
+	  {
+	    const class_or_union *ca = is_class_or_union_type(a.get()), *cb = is_class_or_union_type(b.get());
+	    for (size_t k = 0; k < ca->get_data_members().size() && k < cb->get_data_members().size(); ++k)
+	      todo.push_back(std::make_pair(ca->get_data_members()[k]->get_type(), cb->get_data_members()[k]->get_type()));
+	  }
+      }
+  }
   std::cout << "{\"e\":\"Done\",\"calls\":" << calls << "}" << std::endl;
   return 0;
 }
